@@ -2,6 +2,7 @@ import DriverLib.Chain
 import DriverLib.Revo
 import DriverLib.Trust
 import DriverLib.Envelope
+import DriverLib.EnvState
 /-!
   Line-protocol driver: one JSON case per line on stdin, one JSON answer per line on stdout.
   `{"id":…, "k":<handler>, "in":{…}}`  ↦  `{"id":…, "out":{…}}` or `{"id":…, "error":"…"}`.
@@ -14,6 +15,7 @@ def dispatch (prop k : String) (i impl : Json) : E Json :=
   | "chain" => handleChain i
   | "validate" => handleValidate prop i impl
   | "trust" => handleTrust i
+  | "envstate" => handleEnvState i
   | "jwsread" => handleJwsRead prop i impl
   | "coseread" => handleCoseRead prop i impl
   | "noop" => do
